@@ -104,6 +104,16 @@ def mux_systems(draw, avoid=()):
     g.nodes = nodes
     g.o.phases = False
     g._nominal(spec)
+    # an input that is live by its flags but outputs exactly 0 V: a regulator whose dropout
+    # voltage exceeds its input, or a converter set to 0 V
+    for n in nodes:
+        if n["name"] in inputs or any(n["name"] in S.descendants(spec, i_) for i_ in []):
+            if n["kind"] == "LinReg" and draw(st.integers(0, 5)) == 4:
+                vin0 = abs(spec["_nominal"]["vin"][n["name"]])
+                n["params"]["vo"] = 3.0 * vin0
+                n["params"]["vdrop"] = 1.5 * vin0
+            elif n["kind"] == "Converter" and draw(st.integers(0, 7)) == 4:
+                n["params"]["vo"] = 0.0
     # mux rs: scalar / list (also negative entries: magnitudes)
     # (already drawn by _nominal; flip the sign of list entries sometimes)
     rs = mux["params"].get("rs")
@@ -165,6 +175,31 @@ def body_renamed(case, stats):
     for j, (which, rename, newrail) in enumerate(picks):
         old = mux["parents"][which % len(mux["parents"])]
         node = nm[old]
+        if not rename and not newrail and node["parents"] and node["kind"] != "Source":
+            # delete this input but keep its children: its parent takes its place among the
+            # inputs (merging with it when the parent is an input already)
+            par = node["parents"][0]
+            with warnings.catch_warnings():
+                warnings.simplefilter("ignore")
+                sys.del_comp(old, del_childs=False)
+            spec["nodes"] = [n for n in spec["nodes"] if n["name"] != old]
+            for n in spec["nodes"]:
+                if old in n["parents"]:
+                    seq = [par if p == old else p for p in n["parents"]]
+                    if n["kind"] == "PMux":
+                        keep = [i for i, p in enumerate(seq) if p not in seq[:i]]
+                        rsl = n["params"].get("rs")
+                        if isinstance(rsl, list):
+                            # the per-input resistances stay with their positions
+                            pass
+                        n["parents"] = [seq[i] for i in keep]
+                    else:
+                        n["parents"] = seq
+                    n["pref"] = ["name"] * len(n["parents"])
+            mux = [n for n in spec["nodes"] if n["kind"] == "PMux"][0]
+            nm = S.node_map(spec)
+            stats.cls("deleted_input_children_kept")
+            continue
         new = dict(node)
         if rename:
             new["name"] = "{} r{}".format(old, j)
@@ -206,8 +241,9 @@ def body(spec, stats, sys=None):
     if isinstance(mux["params"].get("rs"), list):
         stats.cls("rs_list")
     for ph in spec["phases"]:
-        powered, out, selm = R.live_map(spec, ph)
-        dom = R.domain_map(spec, ph)
+        vin_of = lambda name, ph=ph: tab.by[(ph, name)]["Vin (V)"]  # noqa: E731
+        powered, out, selm = R.live_map(spec, ph, vin_of)
+        dom = R.domain_map(spec, ph, vin_of)
         sel = selm[mux["name"]]
         r = tab.by[(ph, mux["name"])]
         # generic consistency of every row (laws with the reported selection) ...
